@@ -62,6 +62,9 @@ def fixed_cases(tier):
         n = len(spec["variants"])
         out.append({"spec": spec, "base": S.simple_config([]), "seed": 2,
                     "triples": [[a, b, ["l", "collect"]] for a in range(n) for b in range(n) if a in (0, 1, 2, n - 1) or b in (0, 5, n - 2, n - 1) or a == b]})
+    for spec in C.structured_specs(("i8", "u8", "i64")):
+        n = len(spec["variants"])
+        out.append({"spec": spec, "base": S.simple_config([]), "seed": 4, "triples": [[a, b, ["l", "collect"]] for a in range(n) for b in range(n)]})
     # tied-run matrix (several runs tied for the greatest length; first == last == average with uneven middle runs)
     for spec in C.tied_run_specs():
         n = len(spec["variants"])
